@@ -28,7 +28,7 @@ Circuit::Circuit(int nbCells) {
   cellY_.resize(nbCells);
   cellOrientation_.resize(nbCells);
   netLimits_.push_back(0);
-  isInUse_ = false;
+  isInUse_.value = false;
   hasCellSizeUpdate_ = false;
   hasNetUpdate_ = false;
   check();
@@ -632,19 +632,19 @@ struct InUseGuard {
 
 void Circuit::placeGlobal(const ColoquinteParameters &params,
                           const std::optional<PlacementCallback> &callback) {
-  InUseGuard guard(isInUse_);
+  InUseGuard guard(isInUse_.value);
   GlobalPlacer::place(*this, params, callback);
 }
 
 void Circuit::legalize(const ColoquinteParameters &params,
                        const std::optional<PlacementCallback> &callback) {
-  InUseGuard guard(isInUse_);
+  InUseGuard guard(isInUse_.value);
   DetailedPlacer::legalize(*this, params, callback);
 }
 
 void Circuit::placeDetailed(const ColoquinteParameters &params,
                             const std::optional<PlacementCallback> &callback) {
-  InUseGuard guard(isInUse_);
+  InUseGuard guard(isInUse_.value);
   DetailedPlacer::place(*this, params, callback);
 }
 
@@ -886,7 +886,7 @@ std::vector<float> Circuit::allDistances(const PlacementSolution &a,
 }
 
 void Circuit::checkNotInUse() const {
-  if (isInUse_) {
+  if (isInUse_.value) {
     throw std::runtime_error(
         "This operation is not allowed when the circuit is being placed");
   }
